@@ -182,6 +182,11 @@ def gen_case(seed, tier):
         pool = [a for a in avail if reg_of[a[0]] == reg_of[s0]]
         terms.append(gen_uterm(rng, pool or [(s0, 'second')]))
     terms.append(('get', 0, 'dimensionless'))
+    if rng.random() < 0.4:
+        # units that carry pint's dimension-less base unit radian TOGETHER with a real dimension, next to their radian-free twins
+        terms += [('get', 0, 'lux'), ('div', ('get', 0, 'candela'), ('pow', ('get', 0, 'metre'), '2')),
+                  ('get', 0, 'lumen'), ('get', 0, 'candela'),
+                  ('div', ('get', 0, 'radian'), ('get', 0, 'second')), ('get', 0, 'hertz')]
     for a in terms:
         ops.append(['fmt', a])
         for b in terms:
@@ -190,7 +195,7 @@ def gen_case(seed, tier):
             ops.append(['cf', a, b])
             ops.append(['eq', a, b])
             if rng.random() < 0.3:
-                ops.append(['conv', rng.choice(['5', '0.25', '-3', '1', '12']), a, b])
+                ops.append(['conv', rng.choice(['5', '0.25', '-3', '1', '12', '0', '0']), a, b])
     for s in range(nstores):
         for n in rng.sample(NAMES, 3):
             ops.append(['isdef', s, n])
